@@ -40,6 +40,20 @@ def single_exit(stmts, res):
             return out, True
         if isinstance(st, (ast.FunctionDef, ast.ClassDef, ast.AsyncFunctionDef)):
             raise NotInlinable('nested definition')
+        if contains_return(st) and isinstance(st, (ast.For, ast.While)) and not st.orelse:
+            # a search loop:  for ..: if c: return e        ->   done = False; for ..: if c: res = e; done = True; break
+            #                 <rest>                             if not done: <rest>
+            done = '%s_done%d' % (res, len(out))
+            body = _returns_to_breaks(st.body, res, done)
+            new_loop = copy.copy(st)
+            new_loop.body = body
+            out.append(ast.copy_location(ast.Assign([ast.Name(done, ast.Store())], ast.Constant(False)), st))
+            out.append(new_loop)
+            cont, c_ret = single_exit(stmts[i + 1:], res)
+            if not c_ret:
+                cont = cont + [ast.copy_location(ast.Assign([ast.Name(res, ast.Store())], ast.Constant(None)), st)]
+            out.append(ast.copy_location(ast.If(ast.UnaryOp(ast.Not(), ast.Name(done, ast.Load())), cont or [ast.Pass()], []), st))
+            return out, True
         if contains_return(st):
             if not isinstance(st, ast.If):
                 raise NotInlinable('return inside %s' % type(st).__name__)
@@ -56,6 +70,26 @@ def single_exit(stmts, res):
             return out, (b_ret and o_ret)
         out.append(st)
     return out, False
+
+
+def _returns_to_breaks(body, res, done):
+    """inside ONE loop level: `return e` -> res = e; done = True; break   (returns in nested loops are not supported)"""
+    out = []
+    for st in body:
+        if isinstance(st, ast.Return):
+            val = st.value if st.value is not None else ast.Constant(None)
+            out.append(ast.copy_location(ast.Assign([ast.Name(res, ast.Store())], val), st))
+            out.append(ast.copy_location(ast.Assign([ast.Name(done, ast.Store())], ast.Constant(True)), st))
+            out.append(ast.copy_location(ast.Break(), st))
+            return out
+        if isinstance(st, (ast.For, ast.While, ast.Try, ast.With)) and contains_return(st):
+            raise NotInlinable('return in a nested loop')
+        if isinstance(st, ast.If) and contains_return(st):
+            st = copy.copy(st)
+            st.body = _returns_to_breaks(st.body, res, done)
+            st.orelse = _returns_to_breaks(st.orelse, res, done)
+        out.append(st)
+    return out
 
 
 class _Rename(ast.NodeTransformer):
@@ -194,6 +228,15 @@ class Inliner:
         return out
 
     def stmt(self, st, modname, clsname, depth, current):
+        # `if A and helper(..): S` without else: split the conjunction so that the helper call is evaluated exactly once per
+        # execution of an (inner) if statement and can be inlined
+        if isinstance(st, ast.If) and not st.orelse and isinstance(st.test, ast.BoolOp) and isinstance(st.test.op, ast.And) \
+                and len(st.test.values) >= 2 and any(
+                    isinstance(c, ast.Call) and self.resolve(c, modname, clsname)[0] is not None
+                    for v in st.test.values[1:] for c in ast.walk(v)):
+            inner = ast.copy_location(ast.If(st.test.values[-1] if len(st.test.values) == 2 else
+                                             ast.BoolOp(ast.And(), st.test.values[1:]), st.body, []), st)
+            st = ast.copy_location(ast.If(st.test.values[0], [inner], []), st)
         # recurse into compound statements first
         for field in ('body', 'orelse', 'finalbody'):
             b = getattr(st, field, None)
